@@ -76,8 +76,13 @@ static IPoly shape(Rng& g, int64_t span) {
     return g_rect(0, 0, 8, 8);
 }
 
+// contours whose edges contain the boundary of the covered region when the operands carry zero-width
+// slits (which are not boundary of the region): set by the keyhole scenario, empty otherwise
+static DGroup g_boundary;
+
 static DGroup gen_group(Rng& g, int64_t S, int64_t span, std::string& scen) {
     DGroup G;
+    g_boundary.clear();
     switch (g.below(5)) {
         case 0:
             scen = "single";
@@ -102,6 +107,10 @@ static DGroup gen_group(Rng& g, int64_t S, int64_t span, std::string& scen) {
             free_array(pb);
             free_array(r);
             if (G.empty()) G = a;
+            else {
+                g_boundary = a;
+                g_boundary.push_back(b[0]);
+            }
         } break;
         case 3: {  // two rectangles with a gap (the gap closes for large d)
             scen = "gap";
@@ -156,13 +165,15 @@ static void outside_probes(Rng& g, const DGroup& G, const Frame& f, std::vector<
 }
 
 static void run_off(Out& out, Rng& g, const DGroup& G, double d, int join, double tol, int64_t S, bool use_union,
-                    const std::string& scen) {
+                    const std::string& scen, const DGroup* boundary = NULL) {
+    const DGroup& B = (boundary && !boundary->empty()) ? *boundary : G;
     bool err = false;
     DGroup R = call_offset(G, d, join, tol, S, use_union, err);
     Frame f;
     f.S = S;
     frame_add(f, G);
     frame_add(f, R);
+    frame_add(f, B);
     const int64_t guard = 2;
     int64_t rin, rout;
     radii(d, join, tol, S, guard, rin, rout);
@@ -220,7 +231,7 @@ static void run_off(Out& out, Rng& g, const DGroup& G, double d, int join, doubl
     if (d < 0 && use_union) outside_probes(g, G, f, probes);
     std::string payload = "S " + hex_u64((uint64_t)S) + " K " + std::to_string(f.K) + " MODE " + mode + " RIN " +
                           hex_i128((i128)rin << f.K) + " ROUT " + hex_i128((i128)rout << f.K) + " G " + ser_group(G, f) + " R " +
-                          ser_group(R, f) + " Q " + ser_points(probes) + " P " + ser_points(pts);
+                          ser_group(R, f) + " B " + ser_group(B, f) + " Q " + ser_points(probes) + " P " + ser_points(pts);
     // parameters, for replay (not used by the oracle)
     payload += " PARAM " + hex_dbl(d) + " " + std::to_string(join) + " " + hex_dbl(tol) + " " + (use_union ? "1" : "0");
     std::string id = out.add("off", payload);
@@ -335,7 +346,7 @@ static void gen_case(Out& out, Rng& g) {
     double d = du / (double)S;
     if (g.coin()) d = -d;
     if (uni) run_uni(out, g, G, d, join, tol, S, scen);
-    else run_off(out, g, G, d, join, tol, S, g.coin(), scen);
+    else run_off(out, g, G, d, join, tol, S, g.coin(), scen, &g_boundary);
 }
 
 // replay / corpus for "off": S K ... G <group> ... PARAM d join tol union
@@ -366,28 +377,33 @@ static void run_case(Out& out, Rng& g, const std::string& kind, const std::strin
     if (!k) return;
     long K = strtol(k + 3, NULL, 10);
     const char* gp = strstr(s, " G ");
+    const char* bp = strstr(s, " B ");
     const char* pp = strstr(s, " PARAM ");
     if (!gp || !pp) return;
-    gp += 3;
-    i128 n;
-    if (!parse_i128s(gp, n)) return;
-    DGroup G;
     long double dd = (long double)S * ldexpl(1.0L, (int)K);
-    for (i128 i = 0; i < n; i++) {
-        i128 m;
-        if (!parse_i128s(gp, m)) return;
-        DPoly p;
-        for (i128 j = 0; j < m; j++) {
-            i128 x, y;
-            if (!parse_i128s(gp, x) || !parse_i128s(gp, y)) return;
-            p.push_back(Vec2{(double)((long double)x / dd), (double)((long double)y / dd)});
+    auto parse_group_at = [&](const char* q, DGroup& out_group) -> bool {
+        i128 n;
+        if (!parse_i128s(q, n)) return false;
+        for (i128 i = 0; i < n; i++) {
+            i128 m;
+            if (!parse_i128s(q, m)) return false;
+            DPoly p;
+            for (i128 j = 0; j < m; j++) {
+                i128 x, y;
+                if (!parse_i128s(q, x) || !parse_i128s(q, y)) return false;
+                p.push_back(Vec2{(double)((long double)x / dd), (double)((long double)y / dd)});
+            }
+            out_group.push_back(p);
         }
-        G.push_back(p);
-    }
+        return true;
+    };
+    DGroup G, B;
+    if (!parse_group_at(gp + 3, G)) return;
+    if (bp && bp < pp && !parse_group_at(bp + 3, B)) return;
     unsigned long long db, tb;
     int join, un;
     if (sscanf(pp + 7, "%llx %d %llx %d", &db, &join, &tb, &un) != 4) return;
-    run_off(out, g, G, bits_dbl(db), join, bits_dbl(tb), (int64_t)S, un != 0, "replay");
+    run_off(out, g, G, bits_dbl(db), join, bits_dbl(tb), (int64_t)S, un != 0, "replay", &B);
 }
 
 int main(int argc, char** argv) {
